@@ -149,6 +149,8 @@ def run(ctx):
                    'analysis over list segments, all lengths)', minimum=1)
     rcf = ctx.rule('R-CASFRESH', 'every retry of a compare-exchange re-tests the refreshed expected value against the '
                    'sentinels the first attempt tested', minimum=0)
+    recb = ctx.rule('R-EVENTCALLBACK', '(shared with C11) an attached future counts one unit out and stays valid; a consumed '
+                    'one is released exactly once and counts one unit', minimum=2)
     ref_ = ctx.rule('R-EVENTFORMS', 'Set() stores the all-done sentinel (later arrivals do not park); TryAdd links the '
                     'new waiter in front of the observed head; Wait() blocks exactly when it was registered; an '
                     'awaiter that always suspends resumes the coroutine itself when it could not register; the '
@@ -194,6 +196,8 @@ def run(ctx):
                     ctx.report(rt, key, f.where, 'TryAdd reports failure although it did not observe the all-done '
                                'state: a waiter skips waiting before the count reached zero')
                     break
+        from rules import c11
+        ctx.guard(lambda: c11.check_event_callbacks(ctx, fb, recb, ('CallCallback', 'DropCallback')))
         # ---- the forms of the event (clauses that no other rule looks at)
         ctx.guard(lambda: check_event_forms(ctx, fb, ref_, ka, ke, cfg))
         # ---- who sets the event
